@@ -215,13 +215,10 @@ theorem C01_final_writer {r : N} {k k' t t' : Nat} (hw : Writes prog k r) (hlast
   have : k' < k := Nat.lt_of_le_of_ne (hlast k' hw') hne
   exact (C01_write_order p prog tbl stalled hwf hp h hw' hw ht' ht).2 this
 
-/-- **Replay equals sequential execution, reads-from form** (partial form of `C01_replay_eq_sequential`, see the note
-below). For every read of `r` by `j` at cycle `tj` and every write of `r` by `k` at cycle `tk`:
-`tk < tj ↔ k < j`; and writes of `r` by `k1`, `k2` at `t1`, `t2`: `t1 < t2 ↔ k1 < k2`. Hence, replaying the diagram's
-reads and writes in cycle order (reads of a cycle before its writes), every performed read returns the value written by
-the program-order last older writer (or the initial value), and the last performed write to each register is that of
-its program-order last writer — whatever the operation. -/
-theorem C01_replay_eq_sequential_partial {r : N} :
+/-- **Reads-from and write order, as equivalences.** For every read of `r` by `j` at cycle `tj` and every write of `r`
+by `k` at cycle `tk`: `tk < tj ↔ k < j`; and for writes of `r` by `k1`, `k2` at `t1`, `t2`: `t1 < t2 ↔ k1 < k2`.
+(These are the order facts behind `C01_replay_eq_sequential` below.) -/
+theorem C01_reads_from_iff {r : N} :
     (∀ j k tj tk, Reads prog j r → Writes prog k r → tj ∈ (ctx p prog tbl stalled).accs false j →
       tk ∈ (ctx p prog tbl stalled).accs true k → (tk < tj ↔ k < j)) ∧
     (∀ k1 k2 t1 t2, Writes prog k1 r → Writes prog k2 r → t1 ∈ (ctx p prog tbl stalled).accs true k1 →
@@ -266,6 +263,333 @@ theorem C01_access_exists (p : Proc N) (prog : List (Instr N)) (tbl : List (Util
   rw [List.any_eq_true] at hd
   obtain ⟨t, ht, _⟩ := hd
   exact ⟨t, ht⟩
+
+/-! ## Replay of a returned diagram = sequential execution -/
+
+section replay
+variable {V : Type}
+omit [LT N] [DecidableRel (α := N) (· < ·)]
+
+/-- sequential execution of one instruction on a register file, for an arbitrary operation `op` -/
+def seqStep (op : Instr N → List V → V) (rf : N → V) (ins : Instr N) : N → V :=
+  fun r => if ins.dst = r then op ins (ins.srcs.map rf) else rf r
+
+/-- sequential execution of a program -/
+def seqRun (op : Instr N → List V → V) (rf0 : N → V) (prog : List (Instr N)) : N → V :=
+  prog.foldl (seqStep op) rf0
+
+/-- the operand values instruction `i` gets in sequential execution -/
+def seqOperands (op : Instr N → List V → V) (rf0 : N → V) (prog : List (Instr N)) (i : Nat) : List V :=
+  match prog[i]? with
+  | some ins => ins.srcs.map (seqRun op rf0 (prog.take i))
+  | none => []
+
+/-- the reads of cycle `t`: every instruction shown performing its read access latches the current values of its
+sources -/
+def readPhase (c : Ctx N) (t : Nat) (rf : N → V) (lat : Nat → List V) : Nat → List V :=
+  (List.range c.n).foldl
+    (fun lat i => if t ∈ c.accs false i then (fun j => if j = i then (c.srcs i).map rf else lat j) else lat) lat
+
+/-- the writes of cycle `t`: every instruction shown performing its write access stores `op` of its latched operands -/
+def writePhase (op : Instr N → List V → V) (c : Ctx N) (t : Nat) (lat : Nat → List V) (rf : N → V) : N → V :=
+  (List.range c.n).foldl
+    (fun rf i => if t ∈ c.accs true i then
+        match c.prog[i]? with
+        | some ins => (fun r => if ins.dst = r then op ins (lat i) else rf r)
+        | none => rf
+      else rf) rf
+
+/-- one cycle of the replay: reads, then writes -/
+def replayStep (op : Instr N → List V → V) (c : Ctx N) (st : (N → V) × (Nat → List V)) (t : Nat) :
+    (N → V) × (Nat → List V) :=
+  (writePhase op c t (readPhase c t st.1 st.2) st.1, readPhase c t st.1 st.2)
+
+/-- replay of the diagram in cycle order: final register file and latched operands -/
+def replay (op : Instr N → List V → V) (c : Ctx N) (rf0 : N → V) : (N → V) × (Nat → List V) :=
+  (List.range c.T).foldl (replayStep op c) (rf0, fun _ => [])
+
+/-! ### sequential execution: the value of a register before instruction `j` -/
+
+theorem seqRun_take_succ (op : Instr N → List V → V) (rf0 : N → V) (prog : List (Instr N)) (j : Nat) :
+    seqRun op rf0 (prog.take (j + 1)) =
+      match prog[j]? with
+      | some ins => seqStep op (seqRun op rf0 (prog.take j)) ins
+      | none => seqRun op rf0 (prog.take j) := by
+  unfold seqRun
+  rw [List.take_add_one]
+  cases prog[j]? with
+  | none => simp
+  | some ins => simp [List.foldl_append]
+
+theorem seqRun_no_writer (op : Instr N → List V → V) (rf0 : N → V) (prog : List (Instr N)) (r : N) (j : Nat)
+    (h : ∀ k, k < j → ¬ Writes prog k r) : seqRun op rf0 (prog.take j) r = rf0 r := by
+  induction j with
+  | zero => simp [seqRun]
+  | succ j ih =>
+    rw [seqRun_take_succ]
+    have ih' := ih (fun k hk => h k (by omega))
+    cases hp : prog[j]? with
+    | none => exact ih'
+    | some ins =>
+      simp only [seqStep]
+      have : ¬ ins.dst = r := fun e => h j (by omega) ⟨ins, hp, e⟩
+      rw [if_neg this]; exact ih'
+
+theorem seqRun_last_writer (op : Instr N → List V → V) (rf0 : N → V) (prog : List (Instr N)) (r : N) (k : Nat)
+    (ins : Instr N) (hk : prog[k]? = some ins) (hd : ins.dst = r) (j : Nat) (hkj : k < j)
+    (h : ∀ k', k < k' → k' < j → ¬ Writes prog k' r) :
+    seqRun op rf0 (prog.take j) r = op ins (seqOperands op rf0 prog k) := by
+  induction j with
+  | zero => omega
+  | succ j ih =>
+    rw [seqRun_take_succ]
+    by_cases e : k = j
+    · subst e
+      simp only [hk, seqStep, hd, if_true, seqOperands]
+    · have ih' := ih (by omega) (fun k' h1 h2 => h k' h1 (by omega))
+      cases hp : prog[j]? with
+      | none => exact ih'
+      | some ins' =>
+        simp only [seqStep]
+        have : ¬ ins'.dst = r := fun e' => h j (by omega) (by omega) ⟨ins', hp, e'⟩
+        rw [if_neg this]; exact ih'
+
+/-! ### the two folds of a cycle -/
+
+theorem foldl_latch {α : Type} (l : List Nat) (P : Nat → Prop) [DecidablePred P] (val : Nat → α) (lat : Nat → α)
+    (j : Nat) :
+    (l.foldl (fun lat i => if P i then (fun j => if j = i then val i else lat j) else lat) lat) j =
+      if j ∈ l ∧ P j then val j else lat j := by
+  induction l generalizing lat with
+  | nil => simp
+  | cons a l ih =>
+    rw [List.foldl_cons, ih]
+    by_cases hj : j ∈ l ∧ P j
+    · rw [if_pos hj, if_pos ⟨List.mem_cons_of_mem _ hj.1, hj.2⟩]
+    · rw [if_neg hj]
+      by_cases ha : P a
+      · simp only [ha, if_true]
+        by_cases hja : j = a
+        · subst hja; simp [ha]
+        · rw [if_neg hja, if_neg]
+          rintro ⟨h1, h2⟩
+          rcases List.mem_cons.1 h1 with e | e
+          · exact hja e
+          · exact hj ⟨e, h2⟩
+      · simp only [ha, if_false]
+        rw [if_neg]
+        rintro ⟨h1, h2⟩
+        rcases List.mem_cons.1 h1 with e | e
+        · subst e; exact ha h2
+        · exact hj ⟨e, h2⟩
+
+theorem foldl_write (prog : List (Instr N)) (op : Instr N → List V → V) (lat : Nat → List V) (l : List Nat)
+    (P : Nat → Prop) [DecidablePred P] (init : N → V) (r : N) (x : V)
+    (hv : ∀ i ∈ l, P i → ∀ ins, prog[i]? = some ins → ins.dst = r → op ins (lat i) = x)
+    (hx : init r = x ∨ ∃ i ∈ l, P i ∧ ∃ ins, prog[i]? = some ins ∧ ins.dst = r) :
+    (l.foldl (fun rf i => if P i then
+        match prog[i]? with
+        | some ins => (fun r' => if ins.dst = r' then op ins (lat i) else rf r')
+        | none => rf
+      else rf) init) r = x := by
+  induction l generalizing init with
+  | nil =>
+    rcases hx with h | ⟨i, hi, _⟩
+    · exact h
+    · cases hi
+  | cons a l ih =>
+    rw [List.foldl_cons]
+    refine ih _ (fun i hi => hv i (List.mem_cons_of_mem _ hi)) ?_
+    by_cases hw : P a ∧ ∃ ins, prog[a]? = some ins ∧ ins.dst = r
+    · obtain ⟨hPa, ins, hins, hd⟩ := hw
+      left
+      simp only [hPa, if_true, hins, hd]
+      exact hv a List.mem_cons_self hPa ins hins hd
+    · rcases hx with h | ⟨i, hi, hPi, hins⟩
+      · left
+        by_cases hPa : P a
+        · simp only [hPa, if_true]
+          cases hp : prog[a]? with
+          | none => exact h
+          | some ins =>
+            have : ¬ ins.dst = r := fun e => hw ⟨hPa, ins, hp, e⟩
+            simp only [this, if_false]; exact h
+        · simp only [hPa, if_false]; exact h
+      · rcases List.mem_cons.1 hi with e | e
+        · subst e; exact absurd ⟨hPi, hins⟩ hw
+        · right; exact ⟨i, e, hPi, hins⟩
+
+/-! ### the replay invariant -/
+
+/-- the access times of a diagram in which every instruction performs each access exactly once, and what C01 says about
+them -/
+structure AccTimes (c : Ctx N) (RT WT : Nat → Nat) : Prop where
+  rt : ∀ i, i < c.n → ∀ t, t ∈ c.accs false i ↔ t = RT i
+  wt : ∀ i, i < c.n → ∀ t, t ∈ c.accs true i ↔ t = WT i
+  wlt : ∀ i, i < c.n → WT i < c.T
+  rw : ∀ i, i < c.n → RT i ≤ WT i
+  raw : ∀ j k r, j < c.n → k < c.n → Reads c.prog j r → Writes c.prog k r → (WT k < RT j ↔ k < j)
+  ww : ∀ k1 k2 r, k1 < c.n → k2 < c.n → Writes c.prog k1 r → Writes c.prog k2 r → (WT k1 < WT k2 ↔ k1 < k2)
+
+/-- after `m` replayed cycles: every read performed so far latched the sequential operand values, and every register
+whose performed writes are exactly those of the instructions before `j` holds its sequential value before `j` -/
+def ReplayInv (op : Instr N → List V → V) (rf0 : N → V) (c : Ctx N) (RT WT : Nat → Nat) (m : Nat)
+    (st : (N → V) × (Nat → List V)) : Prop :=
+  (∀ i, i < c.n → RT i < m → st.2 i = seqOperands op rf0 c.prog i) ∧
+  (∀ r j, j ≤ c.n → (∀ k, k < c.n → Writes c.prog k r → (k < j ↔ WT k < m)) →
+    st.1 r = seqRun op rf0 (c.prog.take j) r)
+
+theorem ReplayInv.zero (op : Instr N → List V → V) (rf0 : N → V) (c : Ctx N) (RT WT : Nat → Nat) :
+    ReplayInv op rf0 c RT WT 0 (rf0, fun _ => []) := by
+  refine ⟨fun i _ h => by omega, fun r j hj h => ?_⟩
+  symm
+  apply seqRun_no_writer
+  intro k hk hw
+  have := (h k (by omega) hw).1 hk
+  omega
+
+theorem ReplayInv.step {op : Instr N → List V → V} {rf0 : N → V} {c : Ctx N} {RT WT : Nat → Nat}
+    (hat : AccTimes c RT WT) {m : Nat} {st : (N → V) × (Nat → List V)} (h : ReplayInv op rf0 c RT WT m st) :
+    ReplayInv op rf0 c RT WT (m + 1) (replayStep op c st m) := by
+  obtain ⟨hA, hB⟩ := h
+  -- the read phase
+  have hlat : ∀ i, readPhase c m st.1 st.2 i =
+      if i ∈ List.range c.n ∧ m ∈ c.accs false i then (c.srcs i).map st.1 else st.2 i :=
+    fun i => foldl_latch (List.range c.n) (fun i => m ∈ c.accs false i) (fun i => (c.srcs i).map st.1) st.2 i
+  have hA' : ∀ i, i < c.n → RT i ≤ m → readPhase c m st.1 st.2 i = seqOperands op rf0 c.prog i := by
+    intro i hi hle
+    rw [hlat]
+    by_cases e : RT i = m
+    · have hm : m ∈ c.accs false i := (hat.rt i hi m).2 e.symm
+      rw [if_pos ⟨List.mem_range.2 hi, hm⟩]
+      obtain ⟨ins, hins⟩ : ∃ ins, c.prog[i]? = some ins := ⟨c.prog[i]'hi, List.getElem?_eq_getElem hi⟩
+      simp only [Ctx.srcs, seqOperands, hins, Option.map_some, Option.getD_some]
+      apply List.map_congr_left
+      intro r hr
+      apply hB r i (Nat.le_of_lt hi)
+      intro k hk hw
+      rw [← e]
+      exact (hat.raw i k r hi hk ⟨ins, hins, hr⟩ hw).symm
+    · have hm : ¬ m ∈ c.accs false i := fun hm => e ((hat.rt i hi m).1 hm).symm
+      rw [if_neg (fun h => hm h.2)]
+      exact hA i hi (by omega)
+  refine ⟨fun i hi hlt => hA' i hi (by omega), ?_⟩
+  -- the write phase
+  intro r j hj hH
+  show writePhase op c m (readPhase c m st.1 st.2) st.1 r = _
+  unfold writePhase
+  by_cases hex : ∃ k0, k0 < c.n ∧ Writes c.prog k0 r ∧ WT k0 = m
+  · obtain ⟨k0, hk0, hw0, hWT0⟩ := hex
+    obtain ⟨ins0, hins0, hd0⟩ := hw0
+    have huniq : ∀ i, i < c.n → Writes c.prog i r → WT i = m → i = k0 := by
+      intro i hi hw hWT
+      have h1 := hat.ww i k0 r hi hk0 hw ⟨ins0, hins0, hd0⟩
+      have h2 := hat.ww k0 i r hk0 hi ⟨ins0, hins0, hd0⟩ hw
+      rw [hWT, hWT0] at h1 h2
+      rcases Nat.lt_trichotomy i k0 with h | h | h
+      · have := h1.2 h; omega
+      · exact h
+      · have := h2.2 h; omega
+    have hk0j : k0 < j := (hH k0 hk0 ⟨ins0, hins0, hd0⟩).2 (by omega)
+    rw [seqRun_last_writer op rf0 c.prog r k0 ins0 hins0 hd0 j hk0j]
+    · apply foldl_write
+      · intro i hi hm ins hins hd
+        have hi' := List.mem_range.1 hi
+        have hWT := (hat.wt i hi' m).1 hm
+        have := huniq i hi' ⟨ins, hins, hd⟩ hWT.symm
+        subst this
+        rw [hins0] at hins; cases hins
+        rw [hA' i hi' (by have := hat.rw i hi'; omega)]
+      · right
+        exact ⟨k0, List.mem_range.2 hk0, (hat.wt k0 hk0 m).2 hWT0.symm, ins0, hins0, hd0⟩
+    · intro k' h1 h2 hw'
+      have hk' : k' < c.n := by omega
+      have hlt := (hH k' hk' hw').1 h2
+      by_cases e : WT k' = m
+      · have := huniq k' hk' hw' e; omega
+      · have := (hat.ww k' k0 r hk' hk0 hw' ⟨ins0, hins0, hd0⟩).1 (by omega)
+        omega
+  · rw [← hB r j hj]
+    · apply foldl_write
+      · intro i hi hm ins hins hd
+        have hi' := List.mem_range.1 hi
+        exact absurd ⟨i, hi', ⟨ins, hins, hd⟩, ((hat.wt i hi' m).1 hm).symm⟩ hex
+      · left; rfl
+    · intro k hk hw
+      rw [hH k hk hw]
+      have : WT k ≠ m := fun e => hex ⟨k, hk, hw, e⟩
+      omega
+
+theorem ReplayInv.run {op : Instr N → List V → V} {rf0 : N → V} {c : Ctx N} {RT WT : Nat → Nat}
+    (hat : AccTimes c RT WT) (m : Nat) :
+    ReplayInv op rf0 c RT WT m ((List.range m).foldl (replayStep op c) (rf0, fun _ => [])) := by
+  induction m with
+  | zero => exact ReplayInv.zero op rf0 c RT WT
+  | succ m ih =>
+    rw [List.range_succ, List.foldl_append]
+    exact ih.step hat
+
+/-- replay = sequential execution, for any diagram with access times as in `AccTimes` -/
+theorem replay_eq_of_accTimes {op : Instr N → List V → V} {rf0 : N → V} {c : Ctx N} {RT WT : Nat → Nat}
+    (hat : AccTimes c RT WT) :
+    (replay op c rf0).1 = seqRun op rf0 c.prog ∧
+      ∀ i, i < c.n → (replay op c rf0).2 i = seqOperands op rf0 c.prog i := by
+  have h := ReplayInv.run (op := op) (rf0 := rf0) hat c.T
+  refine ⟨?_, fun i hi => h.1 i hi (by have := hat.rw i hi; have := hat.wlt i hi; omega)⟩
+  funext r
+  have := h.2 r c.n (Nat.le_refl _) (fun k hk _ => ⟨fun _ => hat.wlt k hk, fun _ => hk⟩)
+  show ((List.range c.T).foldl (replayStep op c) (rf0, fun _ => [])).1 r = _
+  rw [this]
+  congr 1
+  exact List.take_length
+
+end replay
+
+section replayMain
+variable {V : Type}
+
+/-- the access times of a returned diagram exist and satisfy everything `AccTimes` asks -/
+theorem C01_accTimes (p : Proc N) (prog : List (Instr N)) (tbl : List (Util N))
+    (hwf : wfProc p = true) (hp : ProgOK prog) (h : Diagram p prog tbl false) :
+    AccTimes (ctx p prog tbl false)
+      (fun i => ((ctx p prog tbl false).accs false i).head?.getD 0)
+      (fun i => ((ctx p prog tbl false).accs true i).head?.getD 0) := by
+  have key : ∀ k i, i < prog.length → ∀ t, t ∈ (ctx p prog tbl false).accs k i ↔
+      t = ((ctx p prog tbl false).accs k i).head?.getD 0 := by
+    intro k i hi t
+    obtain ⟨t0, ht0⟩ := C01_access_exists p prog tbl hwf hp h hi k
+    cases hl : (ctx p prog tbl false).accs k i with
+    | nil => rw [hl] at ht0; cases ht0
+    | cons a rest =>
+      have ha : a ∈ (ctx p prog tbl false).accs k i := by rw [hl]; exact List.mem_cons_self
+      simp only [List.head?_cons, Option.getD_some]
+      rw [← hl]
+      exact ⟨fun ht => accs_unique hwf hp h ht ha, fun e => e ▸ ha⟩
+  have hmem : ∀ k i, i < prog.length →
+      ((ctx p prog tbl false).accs k i).head?.getD 0 ∈ (ctx p prog tbl false).accs k i :=
+    fun k i hi => (key k i hi _).2 rfl
+  refine ⟨key false, key true, ?_, ?_, ?_, ?_⟩
+  · intro i hi
+    exact ((mem_accs_iff _ _ _ _).1 (hmem true i hi)).1
+  · intro i hi
+    exact read_le_write hwf hp h (hmem false i hi) (hmem true i hi)
+  · intro j k r hj hk hr hw
+    exact C01_write_before_read_iff p prog tbl false hwf hp h hr hw (hmem false j hj) (hmem true k hk)
+  · intro k1 k2 r h1 h2 hw1 hw2
+    exact C01_write_order p prog tbl false hwf hp h hw1 hw2 (hmem true k1 h1) (hmem true k2 h2)
+
+/-- **C01, second sentence: replay = sequential execution.** For a returned diagram, replaying the reads and writes it
+shows, in cycle order (the reads of a cycle before its writes) and with an arbitrary operation `op` and initial register
+file `rf0`, gives the register file the final contents, and every instruction the operand values, of sequential
+execution: no RAW, WAR or WAW violation. -/
+theorem C01_replay_eq_sequential (p : Proc N) (prog : List (Instr N)) (tbl : List (Util N))
+    (hwf : wfProc p = true) (hp : ProgOK prog) (h : Diagram p prog tbl false)
+    (op : Instr N → List V → V) (rf0 : N → V) :
+    (replay op (ctx p prog tbl false) rf0).1 = seqRun op rf0 prog ∧
+      ∀ i, i < prog.length → (replay op (ctx p prog tbl false) rf0).2 i = seqOperands op rf0 prog i :=
+  replay_eq_of_accTimes (C01_accTimes p prog tbl hwf hp h)
+
+end replayMain
 
 /-! ## Non-vacuity
 
@@ -337,6 +661,15 @@ example : (ctx proc prog table false).accs false 4 = [2] ∧ (ctx proc prog tabl
 -- a diagram with the write of I0 and the read of I1 in the same cycle is rejected by the checker
 example : (Spec.C01 (ctx proc prog
     [ [(2, [⟨1, .D⟩]), (0, [⟨0, .U⟩])], [(2, [⟨1, .U⟩]), (1, [⟨0, .U⟩])] ] false)).ok = false := by decide
+
+-- replay of the diagram with a concrete operation (`sum of the operands + destination number`) and the initial
+-- register file `R ↦ 100·R`: same final register file and operands as sequential execution
+example : [1, 2, 4, 7].map (replay (fun ins vals => vals.sum + ins.dst) (ctx proc prog table false) (fun r => 100 * r)).1 =
+    [1, 2, 4, 7].map (seqRun (fun ins vals => vals.sum + ins.dst) (fun r => 100 * r) prog) := by decide
+example : (List.range 5).map (replay (fun ins vals => vals.sum + ins.dst) (ctx proc prog table false) (fun r => 100 * r)).2 =
+    (List.range 5).map (seqOperands (fun ins vals => vals.sum + ins.dst) (fun r => 100 * r) prog) := by decide
+example : (List.range 5).map (seqOperands (fun ins vals => vals.sum + ins.dst) (fun r => 100 * r) prog) =
+    [[200, 300], [501], [500], [600], [501, 700]] := by decide
 
 end C01Example
 
